@@ -6,6 +6,7 @@ import (
 	"fmt"
 	"math"
 	"net/http"
+	"sort"
 	"strings"
 	"syscall"
 	"time"
@@ -496,7 +497,13 @@ func c09Scenario(c c09Case, idx int) vx.Scenario {
 					what = "injected websocket message"
 				}
 				var ids, auth []string
-				for k, v := range h {
+				hk := make([]string, 0, len(h))
+				for k := range h {
+					hk = append(hk, k)
+				}
+				sort.Strings(hk)
+				for _, k := range hk {
+					v := h[k]
 					if http.CanonicalHeaderKey(k) == "X-Inverting-Proxy-User-Id" {
 						ids = append(ids, v...)
 					}
